@@ -363,7 +363,7 @@ FASTCOVER_ctx_init(FASTCOVER_ctx_t* ctx,
     ctx->accelParams = accelParams;
 
     /* The offsets of each file */
-    ctx->offsets = (size_t*)calloc((nbSamples + 1), sizeof(size_t));
+    ctx->offsets = (size_t*)calloc(((size_t)nbSamples + 1), sizeof(size_t));   /* nbSamples + 1 wraps for (unsigned)-1 */
     if (ctx->offsets == NULL) {
         DISPLAYLEVEL(1, "Failed to allocate scratch buffers \n");
         FASTCOVER_ctx_destroy(ctx);
@@ -371,7 +371,7 @@ FASTCOVER_ctx_init(FASTCOVER_ctx_t* ctx,
     }
 
     /* Fill offsets from the samplesSizes */
-    {   U32 i;
+    {   size_t i;
         ctx->offsets[0] = 0;
         assert(nbSamples >= 5);
         for (i = 1; i <= nbSamples; ++i) {
